@@ -39,6 +39,8 @@ func atoi(d []byte) (int, error) {
 	return parseUInt(d)
 }
 
+const maxInt = int(^uint(0) >> 1)
+
 // parseUInt is similar to the function in strconv, but is tuned for ints appearing in FIX field types.
 func parseUInt(d []byte) (n int, err error) {
 	if len(d) == 0 {
@@ -52,7 +54,12 @@ func parseUInt(d []byte) (n int, err error) {
 			return
 		}
 
-		n = n*10 + (int(dec) - ascii0)
+		digit := int(dec) - ascii0
+		if n > (maxInt-digit)/10 {
+			err = errors.New("value out of range")
+			return
+		}
+		n = n*10 + digit
 	}
 
 	return
